@@ -94,17 +94,38 @@ class SGen(object):
         return '%s()' % self.name()
 
     def lambda_params(self):
+        """every parameter kind a lambda can have: positional-only (/), positional with defaults, *args, keyword-only
+        with and without defaults (after * or *args; their defaults live in args.kw_defaults), **kwargs; defaults
+        may themselves be lambdas / comprehensions (expr at depth 1)"""
         r = self.r
-        if not self.o.nested_params or r.random() < 0.3:
+        if not self.o.nested_params or r.random() < 0.25:
             return ''
-        ps = r.sample(NAMES, r.randint(1, 2))
-        out = []
-        for i, p in enumerate(ps):
-            out.append(p if r.random() < 0.7 else '%s=%s' % (p, self.expr(2)))
-        # defaults must trail
-        out.sort(key=lambda s: '=' in s)
-        if r.random() < 0.15:
-            out.append('*%s' % r.choice([n for n in NAMES if n not in ps] or ['aa']))
+        pool = list(NAMES)
+        r.shuffle(pool)
+
+        def dflt():
+            return self.expr(1 if r.random() < 0.3 else 2)
+        plain = []
+        for _ in range(r.randint(0, 2)):
+            p = pool.pop()
+            plain.append(p if r.random() < 0.65 else '%s=%s' % (p, dflt()))
+        plain.sort(key=lambda s: '=' in s)          # defaults must trail
+        if plain and r.random() < 0.2:
+            nd = [i for i, x in enumerate(plain) if '=' not in x]
+            plain.insert(r.randint(1, len(plain)) if not nd else r.randint(1, max(1, len(plain))), '/')
+            # a default may not precede a non-default, '/' may stand anywhere after the first parameter
+        out = plain
+        k = r.random()
+        if k < 0.45:
+            out.append('*%s' % pool.pop() if r.random() < 0.5 else '*')
+            nkw = r.randint(1, 2)
+            for _ in range(nkw):
+                p = pool.pop()
+                out.append('%s=%s' % (p, dflt()) if r.random() < 0.7 else p)
+        if r.random() < 0.15 and pool:
+            out.append('**%s' % pool.pop())
+        if not out:
+            return ''
         return ' ' + ', '.join(out)
 
     def comp_target(self):
@@ -168,9 +189,9 @@ class SGen(object):
             if o.annotations and r.random() < 0.3:
                 s += ': %s' % r.choice(['int', self.name(), '%s.%s' % (self.name(), r.choice(ATTRS))])
                 if default_ok and r.random() < 0.4:
-                    s += ' = %s' % self.expr(2)
-            elif default_ok and r.random() < 0.3:
-                s += '=%s' % self.expr(2)
+                    s += ' = %s' % self.expr(1 if r.random() < 0.3 else 2)
+            elif default_ok and r.random() < 0.4:
+                s += '=%s' % self.expr(1 if r.random() < 0.3 else 2)
             return s
         n = r.randint(0, 3)
         plain = [one(pool.pop(), False) for _ in range(r.randint(0, min(2, n)))]
@@ -179,13 +200,15 @@ class SGen(object):
         dflt = [one(pool.pop(), True) for _ in range(n - len([p for p in plain if p != '/']))]
         dflt.sort(key=lambda s: '=' in s)
         out += plain + dflt
-        if r.random() < 0.2:
+        if r.random() < 0.25 and pool:
             out.append('*' + one(pool.pop(), False))
-            if r.random() < 0.5 and pool:
+            if r.random() < 0.6 and pool:
                 out.append(one(pool.pop(), True))
-        elif r.random() < 0.1 and pool:
+        elif r.random() < 0.2 and pool:
             out.append('*')
             out.append(one(pool.pop(), True))
+            if r.random() < 0.3 and pool:
+                out.append(one(pool.pop(), True))
         if r.random() < 0.15 and pool:
             out.append('**' + one(pool.pop(), False))
         return ', '.join(out)
@@ -329,8 +352,10 @@ class SGen(object):
     def fundef(self, ind, method=False, name=None):
         r = self.r
         o = self.o
-        if o.annotations and r.random() < 0.15:
+        if r.random() < 0.15:
             self.emit(ind, '@%s' % self.expr(2))
+            if r.random() < 0.3:
+                self.emit(ind, '@%s' % self.expr(2))
         self.uid += 1
         nm = name or (r.choice(NAMES) if r.random() < 0.5 else 'fn%d' % self.uid)
         ret = ' -> %s' % self.name() if (o.annotations and r.random() < 0.15) else ''
@@ -493,7 +518,25 @@ class DGen(progs.Gen):
             self.emit(ind, '%s = [q + %s for q in (1, 2) if q]' % (v, self.rd(defined)))
             return defined | {v}
         if k == 1:
-            self.emit(ind, '%s = (lambda p, r=%s: p + r + %s)(%s)' % (v, self.rd(defined), self.rd(defined), self.texpr(defined)))
+            form = r.randint(0, 5)
+            a1, a2 = self.rd(defined), self.rd(defined)
+            if form == 0:
+                self.emit(ind, '%s = (lambda p, r=%s: p + r + %s)(%s)' % (v, a1, a2, self.texpr(defined)))
+            elif form == 1:     # keyword-only default (args.kw_defaults)
+                self.emit(ind, '%s = (lambda p, *, r=%s: p + r)(%s)' % (v, a1, self.texpr(defined)))
+            elif form == 2:     # positional-only, *args, keyword-only default, **kwargs
+                self.emit(ind, '%s = (lambda p, /, *aa, r=%s, s=%s, **kk: p + r + s)(%s)' % (v, a1, a2, self.texpr(defined)))
+            elif form == 3:     # defaults that are a lambda / a comprehension
+                self.emit(ind, '%s = (lambda p, r=(lambda: %s), *, s=[q for q in (%s,)]: p + r() + s[0])(%s)' % (
+                    v, a1, a2, self.texpr(defined)))
+            elif form == 4:     # nested def: keyword-only default, annotation on a keyword-only parameter, decorator
+                nm = 'g%d' % self.key()
+                self.emit(ind, '@DEC(%s)' % a2)
+                self.emit(ind, 'def %s(p, /, *aa, r: TY = %s, **kk):' % (nm, a1))
+                self.emit(ind + 1, 'return p + r')
+                self.emit(ind, '%s = %s(%s)' % (v, nm, self.texpr(defined)))
+            else:               # keyword-only default that is itself a lambda with a keyword-only default
+                self.emit(ind, '%s = (lambda *, r=(lambda *, s=%s: s): r())()' % (v, a1))
             return defined | {v}
         if k == 2:
             v2 = r.choice(self.vars)
